@@ -70,6 +70,10 @@ def l_concat(xs, ys): return xs + ys
 def l_rev(xs): return list(reversed(xs))
 def l_comp(xs): return [x for x in xs if x is not None]
 def l_comp2(xs): return [(i, x) for i, x in enumerate(xs)]
+def l_enum_start(xs):
+    it = iter(xs)
+    first = next(it, None)
+    return (first, [(i, x) for i, x in enumerate(it, start=2)], [p for p in enumerate(xs, 5)])
 def l_any(xs): return (any(x for x in xs), all(x for x in xs), sum(1 for x in xs))
 def l_find(xs, v): return xs.index(v)
 def l_count(xs, v): return xs.count(v)
@@ -310,7 +314,7 @@ CASES = {
     "b_or": [(a, b) for a in MIXED for b in MIXED], "b_and": [(a, b) for a in MIXED for b in MIXED], "b_ifexp": [(a, 1, 2) for a in MIXED], "b_chain": [(a, b, c) for a in [None, 0, "x"] for b in [False, 3] for c in ["", "y"]],
     "l_ops": [(a, b, c) for a in [1, "a", None] for b in [2, None] for c in [1, "z"]], "l_index": [(xs, i) for xs in LISTS for i in SMALL], "l_pop_empty": [([],), ([1],)],
     "l_slice": [(xs, a, b) for xs in LISTS[:4] for a in SMALL for b in SMALL], "l_concat": [(a, b) for a in LISTS[:3] for b in LISTS[:3]], "l_rev": [(xs,) for xs in LISTS], "l_comp": [(xs,) for xs in LISTS],
-    "l_comp2": [(xs,) for xs in LISTS[:4]], "l_any": [(xs,) for xs in LISTS + [[0, ""], [1, "a"]]], "l_find": [(xs, v) for xs in LISTS for v in [1, "a", None, True, 9]], "l_count": [(xs, v) for xs in LISTS for v in [1, "a", None, True]],
+    "l_comp2": [(xs,) for xs in LISTS[:4]], "l_enum_start": [(xs,) for xs in LISTS[:4]], "l_any": [(xs,) for xs in LISTS + [[0, ""], [1, "a"]]], "l_find": [(xs, v) for xs in LISTS for v in [1, "a", None, True, 9]], "l_count": [(xs, v) for xs in LISTS for v in [1, "a", None, True]],
     "l_unpack": [(xs,) for xs in [[1, 2], [1], [1, 2, 3], []]], "l_zip": [(a, b) for a in LISTS[:4] for b in LISTS[:4]],
     "d_ops": [(k1, k2, v) for k1 in ["a", "b"] for k2 in ["a", "c"] for v in [None, 5]], "d_missing": [("a",), ("b",)], "d_pop": [("a",), ("z",)], "d_del": [("a",), ("z",)], "d_setdefault": [("a",), ("q",)], "d_iter": [()],
     "od_ops": [("a",), ("b",), ("c",), ("z",)], "od_update": [("a",), ("b",), ("n",)], "od_del": [("a",), ("b",), ("z",)], "od_popitem_empty": [()],
